@@ -298,6 +298,7 @@ inductive Act where
   | cSel1Err (c : Nat) | cSel1Ctx (c : Nat) | cSel1Stop (c : Nat)
   | cSel2Res (c : Nat) | cSel2Ctx (c : Nat) | cSel2Stop (c : Nat)
   | cCancelEnc (c : Nat)
+  | cCancelEncFail (c : Nat)         -- encodeFrame of the cancellation failed (only after a call refused for its method name)
   | cCancelDone (c : Nat) | cCancelAsync (c : Nat)   -- async select: doneCh arm / default arm (send arm: wRecv)
   | cPoll (c : Nat)
   | cCancelRec (c : Nat)
@@ -431,9 +432,19 @@ def step (s : St) : Act → Option St
   | .cCancelEnc c =>
     let cl := s.callers c
     if cl.pc = .cEnc then
-      -- a cancellation is smaller than its call (C03 size lemma): it always fits
+      -- a cancellation `[3, seqno, method]` is smaller than its call (C03 size lemma): it fits whenever the
+      -- call did.  When the call frame was refused for its method name (`cEnc c false`, then `cSel1Ctx`) the
+      -- cancellation may be refused too: `cCancelEncFail`
       let (s', y) := newSend s .cancel cl.seq c false
       some (setCaller s' c { cl with pc := .cHand y })
+    else none
+  | .cCancelEncFail c =>
+    -- EncodeAndWriteAsync: `encodeFrame` failed; nothing is handed over, the error sits in the result channel
+    -- (`ch <- err; return 0, ch`); handleCancel goes on to its non-blocking receive
+    let cl := s.callers c
+    if cl.pc = .cEnc then
+      let (s', y) := failedSend s .cancel cl.seq c
+      some (setCaller s' c { cl with pc := .cPoll y })
     else none
   | .cCancelDone c =>
     let cl := s.callers c
